@@ -14,6 +14,7 @@ import (
 
 	"shanhu.io/g/rsautil"
 	"shanhu.io/g/signer"
+	"shanhu.io/g/signin/authgate"
 )
 
 // ---- keys -----------------------------------------------------------------
@@ -324,6 +325,7 @@ func (r *run) sessions() {
 				detail: func(m mutant, mu *Mut) { r.sessCheckCase(k, s.maxttl, valid, m.tok, mu) }})
 		}
 	}
+	r.gate()
 	// malformed: signed blobs shorter than a timestamp, arbitrary text
 	for n := 0; n < 9; n++ {
 		d := r.rng.Bytes(n)
@@ -391,9 +393,9 @@ func (r *run) timeTokens() {
 		// a correctly signed blob that is not exactly a timestamp is not a time token
 		for _, extra := range [][]byte{{0}, []byte("x"), r.rng.Bytes(8)} {
 			d := append(leTime(s.t0), extra...)
-			r.tsCheckCase(k, s.window, s.t0, []byte(signer.New(hmacKeys[k]).SignHex(d)), nil)
+			r.tsCheckCase(k, s.window, s.t0, []byte(signer.New(hmacKeys[k]).SignHex(d)), &Mut{Tok: tokid, Class: "not-a-timestamp"})
 		}
-		r.tsCheckCase(k, s.window, s.t0, []byte(signer.New(hmacKeys[k]).SignHex(leTime(s.t0)[:7])), nil)
+		r.tsCheckCase(k, s.window, s.t0, []byte(signer.New(hmacKeys[k]).SignHex(leTime(s.t0)[:7])), &Mut{Tok: tokid, Class: "not-a-timestamp"})
 	}
 }
 
@@ -558,5 +560,51 @@ func (r *run) rsaTime() {
 		for _, cl := range order {
 			r.emit(&Case{Stream: "sweep", Op: "sweep", Fam: "rsatime", TokID: tokid, Class: cl, N: agg[cl][0], Accepted: agg[cl][1]})
 		}
+	}
+}
+
+// gate: the same sessions behind signin/authgate's Gate (Token / CheckToken).
+func (r *run) gate() {
+	const sec = int64(time.Second)
+	base := int64(1700000000) * sec
+	for ci, s := range []struct {
+		maxttl, ttl int64
+		user        string
+	}{{3600 * sec, 0, "alice"}, {3600 * sec, 30 * 60 * sec, "bob"}, {60 * sec, 3600 * sec, "carol@example.com"}} {
+		k := 1 + ci
+		ss := signer.NewSessions(hmacKeys[k], time.Duration(s.maxttl))
+		ss.TimeFunc = at(base)
+		g := authgate.New(&authgate.Config{Sessions: ss})
+		tk := g.Token(s.user, time.Duration(s.ttl))
+		tok := []byte(tk.Token)
+		expires := tk.Expire.UnixNano()
+		tokid := r.ntok
+		r.ntok++
+		c := &Case{Stream: "authgate", Op: "sessnew", Key: k, MaxTTL: z(s.maxttl), TTL: z(s.ttl), T0: z(base),
+			Data: hx16([]byte(s.user)), TokID: tokid, Macs: []Mac{macEntry(k, append(leTime(expires), s.user...))}}
+		c.Obs.Ok = true
+		c.Obs.Out = hx16(tok)
+		c.Obs.Expires = z(expires)
+		r.emit(c)
+		check := func(now int64, t []byte, mu *Mut) {
+			ss.TimeFunc = at(now)
+			gc := &Case{Stream: "authgate", Op: "gatecheck", Fam: "authgate", Key: k, Now: z(now), Tok: hx16(t),
+				Macs: macsForHex(k, t), Mut: mu}
+			var info *authgate.CredsInfo
+			var err error
+			gc.Obs.Crash = guard(func() { info, err = g.CheckToken(string(t), authgate.TokenBearer) })
+			if err == nil && info != nil && info.Valid && info.User != "" {
+				gc.Obs.Ok = true
+				gc.Obs.Out = hx16([]byte(info.User))
+			}
+			r.emit(gc)
+		}
+		for _, now := range []int64{base, expires - 1, expires, expires + 1} {
+			check(now, tok, &Mut{Tok: tokid, Class: "genuine", Same: true})
+		}
+		up := []byte(strings.ToUpper(tk.Token))
+		check(base, up, &Mut{Tok: tokid, Class: "allupper", Canon: true})
+		check(base, tok[:len(tok)-2], &Mut{Tok: tokid, Class: "prefix"})
+		check(base, append(append([]byte{}, tok...), '0', '0'), &Mut{Tok: tokid, Class: "extend2"})
 	}
 }
